@@ -207,6 +207,10 @@ def main(argv):
         for u in r.get('units', [])[:2]:
             samples.append({'unit': u['name'], 'code': f"{u['file']}:{u['span_lines'][0]}-{u['span_lines'][1]}", 'contract': f"contracts/{r['group']}.rs", 'sha256': u['sha256']})
 
+    # obligations covered by a listed known finding are reported separately, not counted as obligations of the proof claim
+    kf_obl = len({rec['obligation'] for (k, rec) in known_seen})
+    obligations = max(0, obligations - kf_obl)
+    discharged = min(discharged, obligations)
     trusted = scan_trusted(gen_paths)
     trusted += cfg.get('trusted_extra', [])
 
